@@ -159,7 +159,10 @@ def make_probes(flavour, mk, labels, variants=True):
 
 
 # ------------------------------------------------------------------ the check of one tree state
-def check_lookups(cx: _Ctx, tree, flavour, data_probes, node_id_probes, idx_of):
+ID_PROBES_LIGHT = ("id7", "id9", 0, 1, 2, 4242)
+
+
+def check_lookups(cx: _Ctx, tree, flavour, data_probes, node_id_probes, idx_of, light=False):
     """Compare every lookup with the reachable nodes.  idx_of: id(node) -> witness index."""
     from nutree.common import AmbiguousMatchError
 
@@ -216,7 +219,7 @@ def check_lookups(cx: _Ctx, tree, flavour, data_probes, node_id_probes, idx_of):
             cx.bad(func, "ensures result is the one node with that id (KeyError if none, AmbiguousMatchError if several)", f"returned {cx.r(v)}, nodes in the tree with that id: {cx.r(hits)}", **at)
 
     # -- by data object
-    id_probes = list(ID_PROBES)
+    id_probes = list(ID_PROBES_LIGHT if light else ID_PROBES)
     for name, d in data_probes:
         try:
             did = calc(d)
@@ -228,7 +231,8 @@ def check_lookups(cx: _Ctx, tree, flavour, data_probes, node_id_probes, idx_of):
         cx.exact("Tree.find_all", "ensures find_all(data) == nodes in the tree with data_id == calc_data_id(data)", lambda: tree.find_all(d), exp, **at)
         max_results("Tree.find_all", lambda k: tree.find_all(d, max_results=k), exp, **at)
         cx.member("Tree.find_first", "ensures find_first(data) is a node in the tree with that id, None if there is none", lambda: tree.find_first(d), exp, **at)
-        cx.member("Tree.find", "ensures find(data) is a node in the tree with that id, None if there is none", lambda: tree.find(d), exp, **at)
+        if not light:  # `find` is an alias of find_first
+            cx.member("Tree.find", "ensures find(data) is a node in the tree with that id, None if there is none", lambda: tree.find(d), exp, **at)
         cx.eq("Tree.__contains__", "ensures (data in tree) == some node in the tree has that id", lambda: d in tree, bool(exp), **at)
         getitem(d, **at)
     # -- by data_id
@@ -477,19 +481,19 @@ def check_after_op(prop, w: ops.World, op, wit) -> list[Violation]:
     for i, n in enumerate(w.nodes):
         if n._node_id is not None:
             idx_of.setdefault(("nid", n._node_id), i)
-    labels = sorted({r[1] for r in w.spec.nodes} | set(PROBE_LABELS))
+    labels = sorted({r[1] for r in w.spec.nodes} | {"a", "n"} | {o for o in op if isinstance(o, str) and len(o) == 1})
     # object-identity variants of the probes are a matter of hashing (static part); for str they are dropped here
     probes = make_probes(w.flavour, w.mk, labels, variants=w.flavour != "str")
 
     def body():
-        check_lookups(cx, w.tree, w.flavour, probes, pre.nids, idx_of)
+        check_lookups(cx, w.tree, w.flavour, probes, pre.nids, idx_of, light=True)
         if w.otree is not None:
             oidx = {id(n): f"o{i}" for i, n in enumerate(w.onodes)}
             oidx.update(idx_of)
             for i, n in enumerate(w.onodes):
                 cx.names.setdefault(id(n), f"other#{i}")
             sub = _Ctx(prop, dict(wit, tree="other"), cx.names)
-            check_lookups(sub, w.otree, w.flavour, probes, pre.nids, oidx)
+            check_lookups(sub, w.otree, w.flavour, probes, pre.nids, oidx, light=True)
             cx.out += sub.out
         id_rule_after(cx, w, op, pre, status, result)
 
